@@ -11,15 +11,15 @@ echo
 echo "Each change was written by an independent sub-agent from the property text alone, confirmed in a scratch worktree"
 echo "(suite passes, its demonstration fails with the change and passes without), applied to a scratch worktree of /repo, checked there (VERIF_REPO), and removed."
 echo
-echo "| seeded change | written for | check run | tier | exit | violation classes reported |"
-echo "|---|---|---|---|---|---|"
+echo "| seeded change | written for | check run | tier | exit | failing runs kept (max 8) | violation classes reported |"
+echo "|---|---|---|---|---|---|---|"
 for d in seeded/*/; do
   n=$(basename $d)
   [ -f $d/patch.diff ] || continue
   prop=$(python3 -c "import json;m=json.load(open('$d/meta.json'));print(m.get('check',m['property']))")
   own=$(python3 -c "import json;m=json.load(open('$d/meta.json'));print(m['property'])")
   W=/tmp/sweep.$$; git -C /repo worktree remove --force $W >/dev/null 2>&1; git -C /repo worktree add -q --detach $W HEAD
-  if ! git -C $W apply /verif/$d/patch.diff 2>/dev/null; then echo "| $n | $own | $prop | - | patch does not apply | |"; git -C /repo worktree remove --force $W; continue; fi
+  if ! git -C $W apply /verif/$d/patch.diff 2>/dev/null; then echo "| $n | $own | $prop | - | patch does not apply | - | |"; git -C /repo worktree remove --force $W; continue; fi
   o=$(VERIF_OUT=/tmp/expout VERIF_REPO=$W VERIF_MINIMISE=2s timeout 1500 $snap/check $prop quick 2>&1); rc=$?
   tier=quick
   if [ $rc = 0 ]; then
@@ -29,7 +29,9 @@ for d in seeded/*/; do
   fi
   git -C /repo worktree remove --force $W >/dev/null 2>&1
   cls=$(echo "$o" | grep "^  class=" | sed 's/^  class=\([^ ]*\).*/\1/' | sort -u | tr '\n' ' ')
-  echo "| $n | $own | $prop | $tier | $rc | $cls |"
+  # how many of the runs met the most frequent class (reported runs are capped at 8 per class)
+  nr=$(echo "$o" | grep "^  class=" | sed -n 's/.* runs=\([0-9]*\).*/\1/p' | sort -n | tail -1)
+  echo "| $n | $own | $prop | $tier | $rc | ${nr:--} | $cls |"
 done
 } > $out.tmp
 mv $out.tmp $out
